@@ -343,6 +343,9 @@ func (fc *FuncCtx) envFor(fr *Frame, st *State, results []Val, useLocals bool) *
 					env.vars["result"] = sv
 				}
 			}
+			if i < len(results) {
+				bindStructResult(env.vars, rv, i, results[i])
+			}
 		}
 	}
 	if useLocals {
@@ -371,6 +374,25 @@ func (fc *FuncCtx) setOldLocal(fr *Frame, env *Env) {
 			return cur(name)
 		}
 		return SVal{}, false
+	}
+}
+
+// bindStructResult: a result of struct type is a tuple of its scalar fields; contracts name them
+// <result name>_<Field> (and result<i>_<Field>), as for struct-valued parameters and channel elements.
+func bindStructResult(vars map[string]SVal, rv *types.Var, i int, v Val) {
+	sty, ok := rv.Type().Underlying().(*types.Struct)
+	if !ok || v.T != nil || v.Tup == nil || len(v.Tup) != sty.NumFields() {
+		return
+	}
+	for k, fv := range v.Tup {
+		if fv.T == nil {
+			continue
+		}
+		sv := SVal{T: fv.T, Typ: sty.Field(k).Type()}
+		if rv.Name() != "" && rv.Name() != "_" {
+			vars[rv.Name()+"_"+sty.Field(k).Name()] = sv
+		}
+		vars[fmt.Sprintf("result%d_%s", i, sty.Field(k).Name())] = sv
 	}
 }
 
